@@ -66,7 +66,7 @@ TLC_JAR = "/opt/veriftools/tla/tla2tools.jar:/opt/veriftools/tla/CommunityModule
 
 
 def run_tlc(module, cfg_text, wd, name, workers=8, timeout=1800, env=None, extra=None, heap="8g",
-            simulate=None, deque=False):
+            simulate=None, deque=False, coverage=False):
     """Run TLC on spec/<module>.tla with the given cfg text.  Returns a dict with counts,
     exported JSON values (lines printed by PrintT(ToJson(..))), and the error text if any."""
     cfg = os.path.join(wd, name + ".cfg")
@@ -81,9 +81,11 @@ def run_tlc(module, cfg_text, wd, name, workers=8, timeout=1800, env=None, extra
     e["JAVA_TOOL_OPTIONS"] = jopts
     if env:
         e.update(env)
-    cmd = ["timeout", str(timeout), "java", "-XX:+UseParallelGC", "-Xmx" + heap, "-cp", TLC_JAR, "tlc2.TLC",
-           "-workers", str(workers), "-metadir", meta, "-cleanup", "-noGenerateSpecTE", "-coverage", "1",
-           "-config", cfg]
+    cmd = ["timeout", str(timeout), "java", "-XX:+UseParallelGC", "-Xss1g", "-Xmx" + heap, "-cp", TLC_JAR, "tlc2.TLC",
+           "-workers", str(workers), "-metadir", meta, "-cleanup", "-noGenerateSpecTE", "-config", cfg]
+    if coverage:
+        # NB: -coverage disables TLC's caching of LET definitions (10x slower on the fact tables)
+        cmd += ["-coverage", "1"]
     if simulate:
         cmd += ["-simulate", simulate]
     if extra:
